@@ -85,8 +85,8 @@ theorem opsOKb_sound : ∀ (ops : List Op) (s : State), opsOKb s ops = true → 
 
 /-! ## the driver checks the hypotheses on every replayed operation -/
 
-theorem freshb_sound (used : List Off) (sz : Off → Nat) (op : Op) (h : freshb used op = true) :
-    OpFresh ⟨used, sz⟩ op := by
+theorem freshb_sound (used : List Off) (sz : Off → Nat) (s : State) (op : Op)
+    (h : freshb used s op = true) : OpFresh ⟨used, sz⟩ s op := by
   intro row hr
   simpa [freshb, hr] using h
 
@@ -95,15 +95,15 @@ not answer `!hyp-…` for an operation line, the operation satisfies the hypothe
 invariant theorems in the driver's current state, and the driver did exactly `step` -/
 theorem driveStepOK_checked (ds : DState) (l : List String) (op : Op) (h : parseOp l = some op)
     (h1 : (driveStepOK ds l).2 ≠ "!hyp-opok") (h2 : (driveStepOK ds l).2 ≠ "!hyp-fresh") :
-    OpOK ds.s op ∧ (∀ row, op.newRow = some row → row.off ∉ ds.used) ∧
-    driveStepOK ds l = (⟨(step ds.s op).1, usedAfter ds.used op⟩, (step ds.s op).2) := by
+    OpOK ds.s op ∧ (∀ row, okRow ds.s op = some row → row.off ∉ ds.used) ∧
+    driveStepOK ds l = (⟨(step ds.s op).1, usedAfter ds.used ds.s op⟩, (step ds.s op).2) := by
   unfold driveStepOK at h1 h2 ⊢
   split at h1
   · simp [parseOp] at h
   · simp only [h] at h1 h2 ⊢
     by_cases c1 : opOKb ds.s op = true
-    · by_cases c2 : freshb ds.used op = true
-      · refine ⟨opOKb_sound _ _ c1, freshb_sound ds.used (fun _ => 0) op c2, ?_⟩
+    · by_cases c2 : freshb ds.used ds.s op = true
+      · refine ⟨opOKb_sound _ _ c1, freshb_sound ds.used (fun _ => 0) ds.s op c2, ?_⟩
         simp [c1, c2]
       · simp [c1, c2] at h2
     · simp [c1] at h1
